@@ -21,6 +21,8 @@ func c16(p *core.Program, r *core.Report) {
 	r.Rule("R3", "an exhausted GroupBy iterator stops: in every method of groupByIterator, after a call that can set gbi.done (a method that assigns done, directly or through such a call) the done flag is tested before any rowIterator is advanced again -- otherwise a level whose rows intersect nothing wraps forever once the levels above are exhausted")
 	r.Rule("R4", "previous-row landing test: in newGroupByIterator the condition that switches the deeper fields to 'ignore previous' is evaluated for every ordering of (row the iterator landed on, previous): it must hold exactly when the two differ (the iterator wraps, so it can land below as well as above the previous row)")
 	c16GroupBy(p, r)
+	r.Rule("R5", "a row exists only if a container of it holds a bit: every function of package pilosa that turns container keys of fragment storage into row ids (key >> shardVsContainerExponent over a Containers iterator) tests the container's cardinality before it reports the row (clears leave empty containers behind)")
+	c16RowsFromKeys(p, r)
 	r.NotDecided = "Rows paging and merge limits, the intersections computed by the GroupBy iterator, time-range handling: value/iteration logic"
 	pk := p.Pkg("")
 	if pk == nil {
@@ -363,4 +365,69 @@ func c16GroupBy(p *core.Program, r *core.Report) {
 	} else {
 		r.HoldAt("R4", "newGroupByIterator landing test", p.Pos(cond.Pos()), fmt.Sprintf("%d orderings: ignorePrev is set exactly when the landed row differs from previous", n))
 	}
+}
+
+// c16RowsFromKeys: R5.
+func c16RowsFromKeys(p *core.Program, r *core.Report) {
+	pk := p.Pkg("")
+	info := pk.TypesInfo
+	n := 0
+	for _, fd := range core.AllFuncDecls(pk) {
+		if fd.Body == nil || strings.HasSuffix(p.Fset.Position(fd.Pos()).Filename, "_test.go") {
+			continue
+		}
+		// key >> shardVsContainerExponent
+		derives := false
+		ast.Inspect(fd.Body, func(nd ast.Node) bool {
+			if be, ok := nd.(*ast.BinaryExpr); ok && be.Op == token.SHR {
+				if id, ok := ast.Unparen(be.Y).(*ast.Ident); ok {
+					if c, ok := info.ObjectOf(id).(*types.Const); ok && c.Name() == "shardVsContainerExponent" {
+						derives = true
+					}
+				}
+			}
+			return true
+		})
+		if !derives {
+			continue
+		}
+		// container variables: second result of an iterator's Value()
+		conts := map[types.Object]bool{}
+		ast.Inspect(fd.Body, func(nd ast.Node) bool {
+			if as, ok := nd.(*ast.AssignStmt); ok && len(as.Lhs) == 2 && len(as.Rhs) == 1 {
+				if c, ok := ast.Unparen(as.Rhs[0]).(*ast.CallExpr); ok {
+					if fn := core.CalleeOf(info, c); fn != nil && fn.Name() == "Value" {
+						if id, ok := as.Lhs[1].(*ast.Ident); ok && id.Name != "_" {
+							conts[info.ObjectOf(id)] = true
+						}
+					}
+				}
+			}
+			return true
+		})
+		n++
+		construct := core.FuncName(fd) + " rows from container keys"
+		tests := false
+		ast.Inspect(fd.Body, func(nd ast.Node) bool {
+			is, ok := nd.(*ast.IfStmt)
+			if !ok {
+				return true
+			}
+			ast.Inspect(is.Cond, func(m ast.Node) bool {
+				if c, ok := m.(*ast.CallExpr); ok {
+					if fn := core.CalleeOf(info, c); fn != nil && fn.Name() == "N" && recvNamed(fn, "Container") {
+						if sel, ok := ast.Unparen(c.Fun).(*ast.SelectorExpr); ok {
+							if id, ok := ast.Unparen(sel.X).(*ast.Ident); ok && conts[info.ObjectOf(id)] {
+								tests = true
+							}
+						}
+					}
+				}
+				return true
+			})
+			return true
+		})
+		r.Check(tests, "R5", construct, p.Pos(fd.Pos()), "the container's cardinality is tested before its row is reported", "row ids are taken from container keys without looking at the container's cardinality: a row whose bits were all cleared (or that only ever received a clear through the import path) is reported as existing")
+	}
+	r.Floor("C16/R5 functions deriving rows from container keys", n, 1)
 }
